@@ -43,6 +43,30 @@ fn e1_units(_tier: Tier) -> Vec<Unit> {
             }
         }
     }));
+    units.push(Unit::new("TRAPA/frame-over-code", 1, "TRAPA #1-3 with the stack frame overlapping the TRAPA instruction itself or its neighbours (SP = instruction address + k, every even k in -2..=8, upper byte {00,5a}) x 2 code positions x K16 CCR: the trap number is the one fetched before the frame was stored", |ctx, _| {
+        for n in 1..=3u32 {
+            for &pc in &[dom::CODE_RAM, dom::CODE_DRAM] {
+                let mut k: i32 = -2;
+                while k <= 8 {
+                    for top in [0x00u32, 0x5a] {
+                        let mut f = Fields::default();
+                        f.trap = n as u8;
+                        let row = ctx.isa.row("TRAPA #x:2");
+                        let code = ctx.isa.encode(row, &f);
+                        let mut c = Case::new(pc, &code);
+                        c.er = dom::background_regs();
+                        c.er[7] = (pc.wrapping_add(k as u32) & M24) | (top << 24);
+                        c.patch_l((8 + n) * 4, 0x00ff_c300 + 0x100 * n);
+                        for &ccr in &K16 {
+                            c.ccr = ccr;
+                            ctx.run(&c);
+                        }
+                    }
+                    k += 2;
+                }
+            }
+        }
+    }));
     units.push(Unit::new("IRQ/T", 63, "interrupt vectors 1-63 x all 128 CCR values with I clear x 4 vector contents x 36 stack pointers x 3 interrupted PCs", |ctx, chunk| {
         let v = chunk as u8 + 1;
         for &h in HANDLERS.iter() {
